@@ -85,10 +85,11 @@ static void gen_unit(vh_rng_t * rng, vh_buf_t * b, int * flags) {
         default: vh_buf_adds(b, "SYST:SUB:Q3?"); *flags |= 1 | 8; break;
     }
 }
+static size_t g_termlen; /* terminator length of the message generated last */
 static void gen_msg(vh_rng_t * rng, vh_buf_t * b, int * flags) {
     int nu = 1 + (int) vh_below(rng, 4), u;
     for (u = 0; u < nu; u++) { if (u) vh_buf_addc(b, ';'); if (vh_chance(rng, 1, 6)) vh_buf_addc(b, ' '); gen_unit(rng, b, flags); }
-    vh_buf_adds(b, vh_chance(rng, 1, 5) ? "\r\n" : "\n");
+    { int crlf = vh_chance(rng, 1, 5); vh_buf_adds(b, crlf ? "\r\n" : "\n"); g_termlen = crlf ? 2 : 1; }
 }
 
 static void capture(vh_ctx_t * v, vh_buf_t * into) {
@@ -109,12 +110,13 @@ static uint64_t p0_count(int thorough) {
 static void p0_run(uint64_t idx, vh_rng_t * rng) {
     static vh_buf_t A[6], B, alone, after, all;
     int na = (idx % 3 == 0) ? 1 + (int) vh_below(rng, 6) : 1, i, fa = 0, fb = 0, overrun = 0, zero_flush = 0, reinit = 0, mixed = 0;
-    vh_ctx_t * v; size_t bufsize = 512; char key[128];
+    vh_ctx_t * v; size_t bufsize = 512, btl = 1; char key[128]; int joined = 0, bn = 1;
     if (!sigs[0].nsteps) init_sigs();
     vh_buf_reset(&all);
     for (i = 0; i < na; i++) { vh_buf_reset(&A[i]); gen_msg(rng, &A[i], &fa); vh_buf_add(&all, A[i].p, A[i].len); }
     vh_buf_reset(&B); gen_msg(rng, &B, &fb);
-    if (vh_chance(rng, 1, 6)) { int k = 1 + (int) vh_below(rng, 2); while (k--) gen_msg(rng, &B, &fb); } /* B may be several messages */
+    if (vh_chance(rng, 1, 6)) { int k = 1 + (int) vh_below(rng, 2); bn += k; while (k--) gen_msg(rng, &B, &fb); } /* B may be several messages */
+    btl = g_termlen;
     if (vh_chance(rng, 1, 12)) overrun = 1;
     if (vh_chance(rng, 1, 10)) zero_flush = 1;
     vh_case_desc("A = \"%s\" (%d messages%s) then B = \"%s\"", vh_esc(all.p, all.len), na, overrun ? " + overrunning chunk" : "", vh_esc(B.p, B.len));
@@ -147,13 +149,28 @@ static void p0_run(uint64_t idx, vh_rng_t * rng) {
         }
         return;
     }
+    /* one case in sixteen: the last message of A and B - without its terminator - arrive in ONE input call, and B is ended by a zero-length
+     * (flush) call. A is executed by that call, B stays pending behind it and must then behave as B ended by a flush does on a new context */
+    joined = (idx % 16 == 1) && bn == 1 && !overrun && !zero_flush && B.len > btl && A[na - 1].len + B.len + 2 < bufsize;
     /* B alone */
     v = vh_ctx_new(cmds, bufsize, 64, 1024); v->sigs = sigs; v->nsigs = NSIG;
+    if (joined) { vh_input(v, B.p, B.len - btl); vh_input(v, NULL, 0); } else
     vh_input(v, B.p, B.len);
     capture(v, &alone);
     vh_ctx_free(v);
     /* B after A */
     v = vh_ctx_new(cmds, bufsize, 64, 1024); v->sigs = sigs; v->nsigs = NSIG;
+    if (joined) {
+        static vh_buf_t J;
+        for (i = 0; i + 1 < na; i++) vh_input(v, A[i].p, A[i].len);
+        vh_buf_reset(&J); vh_buf_add(&J, A[na - 1].p, A[na - 1].len); vh_buf_add(&J, B.p, B.len - btl);
+        vh_input(v, J.p, J.len);
+        vh_ctx_clear_capture(v);
+        vh_input(v, NULL, 0);
+        capture(v, &after);
+        vh_count("pairs.B_pending_behind_A_in_one_call_then_flushed", 1);
+        goto compare;
+    }
     for (i = 0; i < na; i++) { if (vh_chance(rng, 1, 3)) { size_t h = A[i].len / 2; vh_input(v, A[i].p, h); vh_input(v, A[i].p + h, A[i].len - h); } else vh_input(v, A[i].p, A[i].len); }
     if (overrun) {
         /* what is pending when the overrunning chunk arrives: an unfinished string, or complete ';'-terminated units of a message whose
@@ -206,11 +223,12 @@ static void p0_run(uint64_t idx, vh_rng_t * rng) {
         vh_ctx_free(w);
         vh_count("pairs.context_initialised_again_between_A_and_B", 1);
     }
+compare:
     vh_eval(2);
     if (alone.len != after.len || memcmp(alone.p, after.p, alone.len) != 0) {
         const char * cls = (fa & 4) ? "after-unfinished-or-overlong-block" : (fa & 2) ? "after-failing-message" : "after-succeeding-message";
         const char * bcls = (fb & 16) ? "B-starts-relative" : (fb & 1) ? "B-responds" : "B-silent";
-        snprintf(key, sizeof key, "C09:trace-of-B-differs:%s:%s%s%s", cls, bcls, overrun ? ":after-overrun" : "", reinit ? ":after-SCPI_Init-again" : mixed ? ":line-parsed-directly-in-between" : "");
+        snprintf(key, sizeof key, "C09:trace-of-B-differs:%s:%s%s%s", cls, bcls, overrun ? ":after-overrun" : "", reinit ? ":after-SCPI_Init-again" : mixed ? ":line-parsed-directly-in-between" : joined ? ":pending-behind-A-in-one-call-then-flushed" : "");
         vh_violation(key, "A = \"%s\"%s%s; B = \"%s\": B alone -> [%s]; B after A -> [%s]", vh_esc(all.p, all.len), overrun ? " + pending bytes and an overrunning chunk" : "", zero_flush ? " + flush" : "", vh_esc(B.p, B.len), vh_esc(alone.p, alone.len), vh_esc(after.p, after.len));
     }
     vh_ctx_free(v);
